@@ -29,13 +29,14 @@ type rng struct {
 }
 
 type splitCase struct {
-	Ali    gen.Ali `json:"ali"`
-	Ranges []rng   `json:"ranges"`
-	Text   bool    `json:"text"`   // build the set by parsing text instead of calling AddRange
-	Spaces int     `json:"spaces"` // blanks around the separators of the text form (0..3 layouts)
-	CRLF   bool    `json:"crlf"`
-	NoEOL  bool    `json:"no_eol"` // no end of line after the last definition
-	PartL  int     `json:"part_len"`
+	Plan   gen.Plan `json:"plan"`
+	Ali    gen.Ali  `json:"ali"`
+	Ranges []rng    `json:"ranges"`
+	Text   bool     `json:"text"`   // build the set by parsing text instead of calling AddRange
+	Spaces int      `json:"spaces"` // blanks around the separators of the text form (0..3 layouts)
+	CRLF   bool     `json:"crlf"`
+	NoEOL  bool     `json:"no_eol"` // no end of line after the last definition
+	PartL  int      `json:"part_len"`
 }
 
 var partNames = []string{"p0", "p1", "p2", "p3"}
@@ -122,6 +123,7 @@ func genSplit(t *rapid.T) splitCase {
 	c.Spaces = rapid.IntRange(0, 3).Draw(t, "spaces")
 	c.CRLF = rapid.IntRange(0, 4).Draw(t, "crlf") == 0
 	c.NoEOL = rapid.IntRange(0, 3).Draw(t, "noeol") == 0
+	c.Plan = genPlan(t, c.Ali, "prov")
 	return c
 }
 
@@ -240,6 +242,8 @@ func buildPartition(c splitCase) (*align.PartitionSet, error) {
 }
 
 func checkSplit(c splitCase) (o pbt.Outcome, err error) {
+	usePlan(&o, c.Plan)
+	defer donePlan(&o)
 	rows, l := c.Ali.Rows, aliLen(c.Ali)
 	m := modelPartition(c.Ranges, c.PartL)
 	via := "AddRange"
@@ -312,7 +316,7 @@ func checkSplit(c splitCase) (o pbt.Outcome, err error) {
 		}
 	}
 	// Split
-	al := gen.MustBuild(c.Ali)
+	al := build(c.Ali)
 	blocks, e := al.Split(ps)
 	if len(m.Names) <= 1 || c.PartL != l {
 		if e == nil {
@@ -401,8 +405,9 @@ func TestSplit(t *testing.T) { pbt.Run(t, genSplit, checkSplit) }
 // ---- Transpose twice; DiffWithFirst and ReplaceMatchChars ------------------------------------------
 
 type matCase struct {
-	Ali  gen.Ali `json:"ali"`
-	Dots bool    `json:"dots"` // rows below the first contain '.' before the round trip
+	Plan gen.Plan `json:"plan"`
+	Ali  gen.Ali  `json:"ali"`
+	Dots bool     `json:"dots"` // rows below the first contain '.' before the round trip
 }
 
 func genMat(t *rapid.T) matCase {
@@ -431,6 +436,7 @@ func genMat(t *rapid.T) matCase {
 			c.Ali.Rows[i].Seq = string(b)
 		}
 	}
+	c.Plan = genPlan(t, c.Ali, "prov")
 	return c
 }
 
@@ -475,8 +481,10 @@ func modelReplace(rows []gen.Row) []gen.Row {
 }
 
 func checkMat(c matCase) (o pbt.Outcome, err error) {
+	usePlan(&o, c.Plan)
+	defer donePlan(&o)
 	rows := c.Ali.Rows
-	al := gen.MustBuild(c.Ali)
+	al := build(c.Ali)
 	tr, e := al.Transpose()
 	if e != nil {
 		return o, fmt.Errorf("Transpose refused: %v", e)
@@ -594,6 +602,7 @@ func TestExhaustive(t *testing.T) {
 			}
 		}
 	}, func(c exCase) (o pbt.Outcome, err error) {
+		activePlan = gen.Plan{}
 		a := exAli(c)
 		switch c.Op {
 		case "window":
@@ -640,9 +649,10 @@ func TestExhaustive(t *testing.T) {
 // ---- a history on one partition set: Split after every AddRange ---------------------------------------
 
 type histCase struct {
-	Ali      gen.Ali `json:"ali"`
-	Ranges   []rng   `json:"ranges"`    // pairwise disjoint, in the order they are added
-	FromText int     `json:"from_text"` // the first ranges come from parsed text, the others from AddRange
+	Plan     gen.Plan `json:"plan"`
+	Ali      gen.Ali  `json:"ali"`
+	Ranges   []rng    `json:"ranges"`    // pairwise disjoint, in the order they are added
+	FromText int      `json:"from_text"` // the first ranges come from parsed text, the others from AddRange
 }
 
 func genHist(t *rapid.T) histCase {
@@ -660,6 +670,7 @@ func genHist(t *rapid.T) histCase {
 	if uni(t, 3, "notext") == 0 {
 		c.FromText = 0
 	}
+	c.Plan = genPlan(t, c.Ali, "prov")
 	return c
 }
 
@@ -702,8 +713,10 @@ func judgeSplit(rows []gen.Row, al align.Alignment, ps *align.PartitionSet, m pa
 }
 
 func checkHist(c histCase) (o pbt.Outcome, err error) {
+	usePlan(&o, c.Plan)
+	defer donePlan(&o)
 	rows, l := c.Ali.Rows, aliLen(c.Ali)
-	al := gen.MustBuild(c.Ali)
+	al := build(c.Ali)
 	var ps *align.PartitionSet
 	if c.FromText > 0 {
 		txt := partitionText(splitCase{Ranges: c.Ranges[:c.FromText], PartL: l})
